@@ -48,6 +48,12 @@ def ev(e, env):
             return a + b
         if isinstance(e.op, ast.Sub):
             return a - b
+        if isinstance(e.op, ast.Mult) and isinstance(
+                a, int) and isinstance(b, int):
+            return a * b
+        if isinstance(e.op, ast.FloorDiv) and isinstance(
+                a, int) and isinstance(b, int) and b != 0:
+            return a // b
         raise Unknown(au.src(e))
     if isinstance(e, ast.BoolOp):
         if isinstance(e.op, ast.And):
@@ -341,3 +347,185 @@ def r_accept(P, R):
                     f'variables / 3 nodes: accepted == {contract} '
                     f'({n_valid} tuples)')
 r_accept.NAME = 'R-ACCEPT'
+
+
+# ------------------------------------------------------------- min / max
+def _filled_only_in_range_loops(fn):
+    """If `fn` returns a container that is created empty and filled only
+    inside `for .. in range(..)` loops at the top level of its body, return
+    (name, [range calls]); else None."""
+    rets = [r for r in au.walk_no_defs(fn) if isinstance(r, ast.Return)]
+    if len(rets) != 1 or not isinstance(rets[0].value, ast.Name):
+        return None
+    name = rets[0].value.id
+    init = [s for s in fn.body if isinstance(s, ast.Assign) and au.is_name(
+        s.targets[0], name)]
+    if len(init) != 1:
+        return None
+    v = init[0].value
+    empty = (isinstance(v, ast.Call) and au.call_name(v) in (
+        'dict', 'list', 'set') and not v.args and not v.keywords) or (
+            isinstance(v, (ast.Dict, ast.List)) and not (
+                getattr(v, 'keys', None) or getattr(v, 'elts', None)))
+    if not empty:
+        return None
+    ranges = []
+    for s in fn.body:
+        fills = [x for x in ast.walk(s) if (isinstance(
+            x, ast.Subscript) and isinstance(x.ctx, ast.Store)
+            and au.is_name(x.value, name)) or (isinstance(x, ast.Call)
+                                               and isinstance(
+            x.func, ast.Attribute) and x.func.attr in (
+                'add', 'append', 'update', 'setdefault')
+            and au.is_name(x.func.value, name))]
+        if not fills:
+            continue
+        if isinstance(s, ast.For) and isinstance(
+                s.iter, ast.Call) and au.call_name(s.iter) == 'range':
+            ranges.append(s.iter)
+        else:
+            return None
+    return (name, ranges) if ranges else None
+
+
+def r_nonempty(P, R):
+    """`min(c)` / `max(c)` without `default=` needs a non-empty `c`.  Where
+    `c` is the result of a function of this package that fills it only in
+    `range()` loops, the ranges are evaluated for every small model of the
+    caller (number of variables 1..4, every level): one model with all
+    ranges empty is a call that raises ValueError."""
+    from .. import scope
+    n = 0
+    funcs = scope.functions_of(P, R.prop) if R.prop in scope.ENTRY else ()
+    for q in sorted(funcs):
+        f = P.func(q, required=False)
+        if f is None or not q.startswith('dd.bdd.'):
+            continue
+        fn = f.node
+        for c in au.calls_in(fn):
+            if au.call_name(c) not in ('min', 'max') or len(
+                    c.args) != 1 or any(k.arg == 'default'
+                                        for k in c.keywords):
+                continue
+            arg = c.args[0]
+            if not isinstance(arg, ast.Name):
+                continue
+            defs = au.assignments_to(fn, arg.id)
+            if len(defs) != 1 or not isinstance(defs[0].value, ast.Call):
+                continue
+            call = defs[0].value
+            g = P.func(f'dd.bdd.{au.call_name(call)}', required=False)
+            if g is None:
+                continue
+            filled = _filled_only_in_range_loops(g.node)
+            if filled is None:
+                continue
+            n += 1
+            gparams = [p.arg for p in g.node.args.args]
+            witness = None
+            undec = None
+            for nv in (1, 2, 3, 4):
+                for lvl in range(nv):
+                    env = {'bdd.vars': tuple(range(nv)),
+                           'self.vars': tuple(range(nv))}
+                    try:
+                        for st in fn.body:
+                            if st is defs[0] or st.lineno >= \
+                                    defs[0].lineno:
+                                break
+                            _step(st, env, lvl)
+                        argv = [ev(a, env) if not (isinstance(
+                            a, ast.Name) and a.id not in env) else None
+                            for a in call.args]
+                        genv = dict(zip(gparams, argv))
+                        genv = {k: v for k, v in genv.items()
+                                if v is not None}
+                        genv['bdd.vars'] = env['bdd.vars']
+                        for st in g.node.body:
+                            if isinstance(st, ast.For):
+                                break
+                            _step(st, genv, lvl)
+                        sizes = [len(range(*[ev(a, genv)
+                                             for a in rc.args]))
+                                 for rc in filled[1]]
+                    except _Stop:
+                        continue
+                    except Unknown as e:
+                        undec = str(e)
+                        break
+                    except (TypeError, KeyError, ValueError) as e:
+                        undec = f'{type(e).__name__}: {e}'
+                        break
+                    if all(s == 0 for s in sizes) and witness is None:
+                        witness = dict(variables=nv, level=lvl)
+                if undec:
+                    break
+            if undec:
+                R.undecided('R-EMPTY', q, f'`{au.short(c, 40)}`',
+                            f'not evaluable ({undec})')
+            elif witness:
+                R.violation(
+                    'R-EMPTY', 'min-of-empty', q, au.short(c, 30),
+                    f'`{au.short(c, 50)}`: `{arg.id}` is what '
+                    f'{g.name}() filled in its range() loop(s), and with '
+                    f'{witness["variables"]} declared variable(s) (level '
+                    f'{witness["level"]}) every one of them is empty: '
+                    f'{au.call_name(c)}() of an empty collection raises '
+                    'ValueError', unit=f.unit.rel, line=c.lineno)
+            else:
+                R.holds('R-EMPTY', q,
+                        f'`{au.short(c, 40)}`: non-empty for 1..4 '
+                        'variables at every level')
+    R.holds('R-EMPTY', f'min()/max() behind {R.prop}',
+            f'{n} call(s) over a loop-filled result', nontrivial=False)
+r_nonempty.NAME = 'R-EMPTY'
+
+
+class _Stop(Exception):
+    """The model leaves the function before the call of interest."""
+
+
+def _step(st, env, lvl):
+    """One statement of the small-model interpretation (assignments,
+    conditional tuple swaps; raise-guards that fire end the model)."""
+    if isinstance(st, ast.Expr):
+        return
+    if isinstance(st, ast.If):
+        try:
+            t = ev(st.test, env)
+        except Unknown:
+            if any(isinstance(x, ast.Raise) for x in ast.walk(st)):
+                return
+            raise
+        for s2 in (st.body if t else st.orelse):
+            if isinstance(s2, ast.Raise):
+                raise _Stop()
+            if isinstance(s2, ast.Return):
+                raise _Stop()
+            _step(s2, env, lvl)
+        return
+    if isinstance(st, ast.Assign) and len(st.targets) == 1:
+        t, v = st.targets[0], st.value
+        if isinstance(v, ast.Call) and au.call_name(v) == 'level_of_var':
+            val = lvl
+        elif isinstance(v, ast.IfExp):
+            val = ev(v.body, env) if ev(v.test, env) else ev(v.orelse, env)
+        elif isinstance(v, ast.Call) and au.call_name(v) == 'len' and \
+                v.args and au.chain(v.args[0]) and au.chain(
+                    v.args[0])[-1] != 'vars':
+            val = 0          # len(bdd): irrelevant to ranges
+        elif isinstance(v, ast.Call) and au.call_name(v) not in (
+                'len', 'abs', 'min', 'max'):
+            if isinstance(t, ast.Name):
+                env.pop(t.id, None)
+            return
+        else:
+            val = ev(v, env)
+        if isinstance(t, ast.Name):
+            env[t.id] = val
+        elif isinstance(t, ast.Tuple) and isinstance(val, tuple):
+            for x, y in zip(t.elts, val):
+                if isinstance(x, ast.Name):
+                    env[x.id] = y
+        return
+    # anything else has no effect on the integers of the model
